@@ -677,3 +677,52 @@ def eval_fn(prog, path, args):
     for i, a in enumerate(args):
         st.locals[i + 1] = a
     return it.run_fn(st)
+
+
+class NewInterp(TabInterp):
+    """Concrete evaluation of a constructor that takes no input (MessageBuilder::new): array repeat expressions, unsizing of a reference to
+    a local array, first / first_mut / get_mut / fill on it, stores through the references obtained."""
+
+    def rvalue(self, st, rv, dest_place):
+        if rv["k"] == "repeat":
+            v = self.operand(st, rv["op"])
+            n = rv.get("count")
+            if not isinstance(n, int) or n > 4096:
+                raise Undecided("array repeat with an unknown or huge count")
+            return [v] * n
+        if rv["k"] == "cast" and str(rv.get("kind", "")).startswith("PointerCoercion"):
+            return self.operand(st, rv["op"])
+        return TabInterp.rvalue(self, st, rv, dest_place)
+
+    def call(self, st, t):
+        c = t.get("resolved") or t["callee"]
+        short = c.rsplit("::", 1)[-1]
+        if c.startswith("core::slice::<impl [T]>::") and short in ("first", "first_mut", "last", "last_mut", "get", "get_mut", "fill", "len", "is_empty"):
+            args = [self.operand(st, a) for a in t["args"]]
+            r = args[0]
+            arr = self._get(st, r.loc) if isinstance(r, Ref) else None
+            if isinstance(arr, list):
+                def elem(i):
+                    return Ref((r.loc[0], r.loc[1], tuple(r.loc[2]) + (i,)) + tuple(r.loc[3:]))
+                if short in ("first", "first_mut"):
+                    return Adt("core::option::Option", 1, "Some", [elem(0)]) if arr else Adt("core::option::Option", 0, "None", [])
+                if short in ("last", "last_mut"):
+                    return Adt("core::option::Option", 1, "Some", [elem(len(arr) - 1)]) if arr else Adt("core::option::Option", 0, "None", [])
+                if short in ("get", "get_mut") and isinstance(args[1], int):
+                    return Adt("core::option::Option", 1, "Some", [elem(args[1])]) if 0 <= args[1] < len(arr) else Adt("core::option::Option", 0, "None", [])
+                if short == "fill":
+                    for i in range(len(arr)):
+                        arr[i] = args[1]
+                    return bitsem.UNIT
+                if short == "len":
+                    return len(arr)
+                if short == "is_empty":
+                    return 1 if not arr else 0
+        return TabInterp.call(self, st, t)
+
+
+def eval_constructor(prog, path):
+    f = prog.fn(path)
+    it = NewInterp(prog, f, 64)
+    it.choices = {"full": False}
+    return it.run_fn(State())
